@@ -42,6 +42,88 @@ func selfCalls(fn *ssa.Function) []*ssa.Call {
 	return out
 }
 
+// vCall: a recursive call of fn seen from fn itself — made directly, or made by a module helper (a function the walker was split
+// into, a local closure) that fn calls. args are the recursive call's arguments expressed as values of fn wherever they are
+// parameters, constants or captured variables of the helper; other helper-local values are kept as they are (resolved false).
+type vCall struct {
+	site     *ssa.Call // the call instruction in fn
+	inner    *ssa.Call // the recursive call (== site when fn calls itself directly)
+	args     []ssa.Value
+	resolved []bool
+}
+
+func (p *Prog) virtualSelfCalls(fn *ssa.Function) []vCall {
+	var out []vCall
+	var scan func(g *ssa.Function, site *ssa.Call, bind map[ssa.Value]ssa.Value, depth int, stack map[*ssa.Function]bool)
+	scan = func(g *ssa.Function, site *ssa.Call, bind map[ssa.Value]ssa.Value, depth int, stack map[*ssa.Function]bool) {
+		resolve := func(a ssa.Value) (ssa.Value, bool) {
+			if g == fn {
+				return a, true
+			}
+			if _, isC := a.(*ssa.Const); isC {
+				return a, true
+			}
+			if bv, ok := bind[a]; ok {
+				return bv, bv != nil
+			}
+			if cv := p.CellValue(a); cv != nil {
+				if cv.Parent() == fn {
+					return cv, true
+				}
+				if bv, ok := bind[cv]; ok {
+					return bv, bv != nil
+				}
+			}
+			// a slice of a bound value keeps its meaning only if the operand is resolved; callers look at Slice instructions
+			return a, false
+		}
+		eachInstr(g, func(b *ssa.BasicBlock, in ssa.Instruction) {
+			c, ok := in.(*ssa.Call)
+			if !ok {
+				return
+			}
+			h := staticCallee(&c.Call)
+			if h == nil {
+				return
+			}
+			st := site
+			if g == fn {
+				st = c
+			}
+			if h == fn {
+				vc := vCall{site: st, inner: c, args: make([]ssa.Value, len(c.Call.Args)), resolved: make([]bool, len(c.Call.Args))}
+				for i, a := range c.Call.Args {
+					vc.args[i], vc.resolved[i] = resolve(a)
+				}
+				out = append(out, vc)
+				return
+			}
+			if !p.InModule(h) || len(h.Blocks) == 0 || depth >= 2 || stack[h] || p.Exported(h) {
+				return
+			}
+			// does h (transitively, within the bound) call fn at all? cheap pre-check through the call graph
+			if !p.Reach(h)[fn] {
+				return
+			}
+			nb := map[ssa.Value]ssa.Value{}
+			for i, prm := range h.Params {
+				if i < len(c.Call.Args) {
+					if rv, ok := resolve(c.Call.Args[i]); ok {
+						nb[prm] = rv
+					} else {
+						nb[prm] = nil
+					}
+				}
+			}
+			stack[h] = true
+			scan(h, st, nb, depth+1, stack)
+			delete(stack, h)
+		})
+	}
+	scan(fn, nil, nil, 0, map[*ssa.Function]bool{fn: true})
+	return out
+}
+
 // encCall: a call in fn that encodes one (key, node) pair by recursion — the recursive call itself, or a call of a local closure /
 // helper that hands its argument on to exactly one recursive call which every successful return of the helper has passed.
 type encCall struct {
@@ -150,18 +232,19 @@ func ruleWalkProgress(p *Prog, r *Report, names []string) {
 		}
 		keys := fn.Params[ki[0]]
 		cz := p.canonFor(fn)
-		calls := selfCalls(fn)
+		calls := p.virtualSelfCalls(fn)
 		if len(calls) == 0 {
 			r.Bad(rule, n, "recursion", p.Pos(fn.Pos()), "the walker does not recurse")
 			continue
 		}
 		ord := newOrdinals()
-		for _, c := range calls {
-			arg := c.Call.Args[ki[0]]
+		for _, vc := range calls {
+			c := vc.inner
+			arg := vc.args[ki[0]]
 			construct := ord.key(n, "recursive call passes keys[1:]")
 			sl, ok := arg.(*ssa.Slice)
 			good := false
-			if ok && sl.X == ssa.Value(keys) && sl.High == nil && sl.Max == nil && sl.Low != nil {
+			if ok && vc.resolved[ki[0]] && sl.X == ssa.Value(keys) && sl.High == nil && sl.Max == nil && sl.Low != nil {
 				if k, isK := constInt(sl.Low); isK && k == 1 {
 					good = true
 				}
@@ -1172,17 +1255,37 @@ func ruleWalkParent(p *Prog, r *Report) {
 		r.Anchor(rule, "mxj.prevValueByPath")
 		return
 	}
-	n := p.Name(fn)
-	cz := p.canonFor(fn)
-	// keys: the split of the path parameter
+	// keys: the split of the path parameter — in the walker itself, or made by a thin wrapper that hands it to the walker proper
 	var keys ssa.Value
-	eachInstr(fn, func(b *ssa.BasicBlock, in ssa.Instruction) {
-		if c, ok := in.(*ssa.Call); ok && isCallTo(&c.Call, "strings.Split") {
-			if _, isP := c.Call.Args[0].(*ssa.Parameter); isP {
-				keys = c
+	findSplit := func(f *ssa.Function) *ssa.Call {
+		var sp *ssa.Call
+		eachInstr(f, func(b *ssa.BasicBlock, in ssa.Instruction) {
+			if c, ok := in.(*ssa.Call); ok && isCallTo(&c.Call, "strings.Split") {
+				if _, isP := c.Call.Args[0].(*ssa.Parameter); isP {
+					sp = c
+				}
+			}
+		})
+		return sp
+	}
+	if sp := findSplit(fn); sp != nil {
+		keys = sp
+		// handed on to a module function that does the walking?
+		for _, ref := range *sp.Referrers() {
+			if c, ok := ref.(*ssa.Call); ok {
+				if g := staticCallee(&c.Call); g != nil && g != fn && p.InModule(g) && len(g.Blocks) > 0 {
+					for i, a := range c.Call.Args {
+						if a == ssa.Value(sp) && i < len(g.Params) && len(selfCalls(g)) > 0 {
+							fn = g
+							keys = g.Params[i]
+						}
+					}
+				}
 			}
 		}
-	})
+	}
+	n := p.Name(fn)
+	cz := p.canonFor(fn)
 	if keys == nil {
 		r.Unknown(rule, n, "path split", p.Pos(fn.Pos()), "the path parameter is not split with strings.Split")
 		return
@@ -1198,10 +1301,15 @@ func ruleWalkParent(p *Prog, r *Report) {
 			if c, ok := ex.Tuple.(*ssa.Call); ok && staticCallee(&c.Call) == fn {
 				// tail recursion: the rest of the path must be keys[1:]
 				good := false
-				for v := range backwardSlice(fn, c.Call.Args[1]) {
-					if sl, ok := v.(*ssa.Slice); ok && sl.X == keys && sl.High == nil && sl.Low != nil {
-						if k, isK := constInt(sl.Low); isK && k == 1 {
-							good = true
+				for _, arg := range c.Call.Args {
+					if !isStringType(arg.Type()) && !isStringSlice(arg.Type()) {
+						continue
+					}
+					for v := range backwardSlice(fn, arg) {
+						if sl, ok := v.(*ssa.Slice); ok && sl.X == keys && sl.High == nil && sl.Low != nil {
+							if k, isK := constInt(sl.Low); isK && k == 1 {
+								good = true
+							}
 						}
 					}
 				}
@@ -1374,8 +1482,8 @@ func ruleShortestMetric(p *Prog, r *Report, names []string) {
 			if !reachableFromSuccs(b)[b] {
 				return
 			}
-			if isRangeLikeBound(bo) {
-				return
+			if isRangeLikeBound(bo) || !bo.Pos().IsValid() {
+				return // the bound of a counting loop / of the index go/ssa generates for `range`
 			}
 			found = true
 			for _, side := range []ssa.Value{bo.X, bo.Y} {
